@@ -737,7 +737,9 @@ Proof.
     destruct (task_queue_panic _ _ _ H) as (-> & Hf & _). exact Hf.
   - (* ValidateAddress *)
     unfold validate_address in H. destruct (c_addr cd addr); try discriminate;
-      (destruct (evicted w); [destruct (fx_cur_evicted fx) eqn:F; [discriminate|inversion H; subst; exact F]|destruct (cur w); discriminate]).
+      (destruct (negb (evicted w) && match cur w with None => true | Some _ => false end); [discriminate|];
+       match type of H with (if ?c then _ else _) = _ => destruct c; [discriminate|] end;
+       destruct (evicted w); [destruct (fx_cur_evicted fx) eqn:F; [discriminate|inversion H; subst; exact F]|discriminate]).
   - (* GetAddressBalance *)
     apply bind_panic in H. destruct H as [H|(u & _ & H)]; [|exfalso; exact (answer_no_panic _ _ H)].
     destruct (wm_balance_panic _ _ _ _ _ H) as (-> & Hf). exact Hf.
@@ -1181,5 +1183,7 @@ Proof.
   intros H. unfold handle in H. apply bind_panic in H. destruct H as [H|(u & _ & H)]; [exfalso; exact (prologue_no_panic _ _ _ _ H)|].
   cbn [deep] in H. unfold validate_address in H.
   destruct (c_addr cd a); try discriminate;
-    (destruct (evicted w); [destruct (fx_cur_evicted fx); [discriminate|inversion H; auto]|destruct (cur w); discriminate]).
+    (destruct (negb (evicted w) && match cur w with None => true | Some _ => false end); [discriminate|];
+     match type of H with (if ?c then _ else _) = _ => destruct c; [discriminate|] end;
+     destruct (evicted w); [destruct (fx_cur_evicted fx); [discriminate|inversion H; auto]|discriminate]).
 Qed.
